@@ -47,7 +47,7 @@ func (t *Tracer) Emit(m M) {
 		panic(err)
 	}
 	t.mu.Lock()
-	t.w.Write(b)   //nolint
+	t.w.Write(b)        //nolint
 	t.w.WriteByte('\n') //nolint
 	t.N++
 	t.mu.Unlock()
